@@ -567,3 +567,104 @@ func verif_lemma_parse_establishes_frame(h *Session, p []byte) {
 		vAssert(VerifSpecFrameARP(f))
 	}
 }
+
+// VerifSpecFrameICMP4 / ICMP6: what Parse guarantees for these payload classes.
+func VerifSpecFrameICMP4(f Frame) bool {
+	return VerifSpecFrame(f) && f.PayloadID == PayloadICMP4 && f.offsetIP4 == 14 && f.offsetPayload >= 34 && len(f.ether)-f.offsetPayload >= 8
+}
+func VerifSpecFrameICMP6(f Frame) bool {
+	return VerifSpecFrame(f) && f.PayloadID == PayloadICMP6 && f.offsetIP6 == 14 && f.offsetPayload == 54 && len(f.ether)-f.offsetPayload >= 8
+}
+
+//verif:props C08
+func verif_lemma_parse_establishes_icmp(h *Session, p []byte) {
+	vRequires(spec_session_wf(h))
+	f, err := h.Parse(p)
+	if err != nil {
+		return
+	}
+	if f.PayloadID == PayloadICMP4 {
+		vCanary()
+		vAssert(VerifSpecFrameICMP4(f))
+	}
+	if f.PayloadID == PayloadICMP6 {
+		vAssert(VerifSpecFrameICMP6(f))
+	}
+}
+
+// ---------- ICMPv6 send path (C07) ----------
+
+// icmp6SendPacket sends exactly one frame: Ethernet from the host NIC MAC,
+// IPv6 with next header 58, hop limit 255 for link-local destinations (64
+// otherwise), the given addresses, and the ICMPv6 message b (checksum bytes set).
+//
+//verif:props C07 C08
+//verif:timeout 120s
+func verif_contract_Session_icmp6SendPacket(h *Session, srcAddr Addr, dstAddr Addr, b []byte) error {
+	vRequires(VerifSpecSessionOK(h) && len(dstAddr.MAC) == 6 && srcAddr.IP.Is6() && dstAddr.IP.Is6())
+	vRequires(b != nil && 8 <= len(b) && len(b) <= 1400)
+	vCanary()
+	n0 := vWireCount()
+	vModifiesWire()
+	err := h.icmp6SendPacket(srcAddr, dstAddr, b)
+	vEnsures(vWireCount() == n0+1)
+	w := vWireLast()
+	vEnsures(len(w) == 54+len(b))
+	vEnsures(spec_be16(w, 12) == 0x86dd && w[14] == 0x60 && w[20] == 58 && int(spec_be16(w, 18)) == len(b))
+	vEnsures(w[6] == h.NICInfo.HostAddr4.MAC[0] && w[7] == h.NICInfo.HostAddr4.MAC[1] && w[8] == h.NICInfo.HostAddr4.MAC[2] &&
+		w[9] == h.NICInfo.HostAddr4.MAC[3] && w[10] == h.NICInfo.HostAddr4.MAC[4] && w[11] == h.NICInfo.HostAddr4.MAC[5])
+	vEnsures(w[0] == dstAddr.MAC[0] && w[1] == dstAddr.MAC[1] && w[2] == dstAddr.MAC[2] && w[3] == dstAddr.MAC[3] && w[4] == dstAddr.MAC[4] && w[5] == dstAddr.MAC[5])
+	vEnsures(spec_ip6_at(w, 22) == srcAddr.IP && spec_ip6_at(w, 38) == dstAddr.IP)
+	if dstAddr.IP.IsLinkLocalUnicast() || dstAddr.IP.IsLinkLocalMulticast() {
+		vEnsures(w[21] == 255)
+	} else {
+		vEnsures(w[21] == 64)
+	}
+	// the ICMPv6 message is carried unchanged apart from its checksum field
+	vEnsures(w[54] == b[0] && w[55] == b[1])
+	vEnsures(vForall(4, len(b), func(i int) bool { return w[54+i] == b[i] }))
+	vEnsures(VerifSpecSessionOK(h))
+	return err
+}
+
+//verif:props C07 C08
+func verif_contract_Session_ICMP6SendNeighbourSolicitation(h *Session, srcAddr Addr, dstAddr Addr, targetIP netip.Addr) error {
+	vRequires(VerifSpecSessionOK(h) && len(dstAddr.MAC) == 6 && srcAddr.IP.Is6() && dstAddr.IP.Is6() && targetIP.Is6())
+	n0 := vWireCount()
+	vModifiesWire()
+	err := h.ICMP6SendNeighbourSolicitation(srcAddr, dstAddr, targetIP)
+	vEnsures(vWireCount() == n0+1)
+	w := vWireLast()
+	vEnsures(len(w) == 54+32 && spec_be16(w, 12) == 0x86dd && w[20] == 58 && w[54] == 135)
+	vEnsures(spec_ip6_at(w, 62) == targetIP)
+	// source link-layer address option carries the host NIC MAC
+	vEnsures(w[78] == 1 && w[79] == 1 && w[80] == h.NICInfo.HostAddr4.MAC[0] && w[81] == h.NICInfo.HostAddr4.MAC[1] && w[82] == h.NICInfo.HostAddr4.MAC[2] &&
+		w[83] == h.NICInfo.HostAddr4.MAC[3] && w[84] == h.NICInfo.HostAddr4.MAC[4] && w[85] == h.NICInfo.HostAddr4.MAC[5])
+	vEnsures(w[6] == h.NICInfo.HostAddr4.MAC[0] && w[11] == h.NICInfo.HostAddr4.MAC[5])
+	if dstAddr.IP.IsLinkLocalUnicast() || dstAddr.IP.IsLinkLocalMulticast() {
+		vEnsures(w[21] == 255)
+	}
+	vEnsures(VerifSpecSessionOK(h))
+	return err
+}
+
+//verif:props C07 C08
+func verif_contract_Session_ICMP6SendNeighborAdvertisement(h *Session, srcAddr Addr, dstAddr Addr, targetAddr Addr) error {
+	vRequires(VerifSpecSessionOK(h) && len(dstAddr.MAC) == 6 && srcAddr.IP.Is6() && dstAddr.IP.Is6() && targetAddr.IP.Is6() && len(targetAddr.MAC) == 6)
+	n0 := vWireCount()
+	vModifiesWire()
+	err := h.ICMP6SendNeighborAdvertisement(srcAddr, dstAddr, targetAddr)
+	vEnsures(vWireCount() == n0+1)
+	w := vWireLast()
+	// an unsolicited, overriding neighbour advertisement: target address and target link-layer address option
+	vEnsures(len(w) == 54+32 && spec_be16(w, 12) == 0x86dd && w[20] == 58 && w[54] == 136 && w[58] == 0x20)
+	vEnsures(spec_ip6_at(w, 62) == targetAddr.IP)
+	vEnsures(w[78] == 2 && w[79] == 1 && w[80] == targetAddr.MAC[0] && w[81] == targetAddr.MAC[1] && w[82] == targetAddr.MAC[2] &&
+		w[83] == targetAddr.MAC[3] && w[84] == targetAddr.MAC[4] && w[85] == targetAddr.MAC[5])
+	vEnsures(w[6] == h.NICInfo.HostAddr4.MAC[0] && w[11] == h.NICInfo.HostAddr4.MAC[5])
+	if dstAddr.IP.IsLinkLocalUnicast() || dstAddr.IP.IsLinkLocalMulticast() {
+		vEnsures(w[21] == 255)
+	}
+	vEnsures(VerifSpecSessionOK(h))
+	return err
+}
